@@ -765,6 +765,7 @@ class SimLoop(base_events.BaseEventLoop):
             raise OSError(errno.EADDRINUSE,
                           f"error while attempting to bind on address ({host!r}, {port}): address already in use")
         srv = SimListener(self, net, host or "0.0.0.0", port, protocol_factory, owner)
+        srv.ssl = ssl          # (no TLS on SimNet: only remembered, so that a check can compare listeners)
         net.listeners[port] = srv
         net.all_listeners.append(srv)
         if start_serving:
